@@ -237,6 +237,17 @@ func GenNumText(t *rapid.T, label string, allowReal bool) t1ref.NumText {
 		v := rapid.IntRange(-2000, 2000).Draw(t, label)
 		return t1ref.NumText{Present: true, Text: strconv.Itoa(v), Val: float64(v), IsInt: true}
 	}
+	if rapid.IntRange(0, 4).Draw(t, label+"long") == 0 {
+		// 9-17 significant digits (more than a float32 holds), or an integer
+		// beyond 2^24
+		s := rapid.SampledFrom([]string{"84.66666666666667", "0.000212556561670022", "16777217", "0.1234567890123", "-33554433", "1234.56789012", "0.30000000000000004", "123456789.125", "-0.000123456789", "7.000000001"}).Draw(t, label+"longv")
+		v, err := strconv.ParseFloat(s, 64)
+		if err != nil {
+			panic(err)
+		}
+		_, ierr := strconv.Atoi(s)
+		return t1ref.NumText{Present: true, Text: s, Val: v, IsInt: ierr == nil}
+	}
 	mant := rapid.IntRange(-99999, 99999).Draw(t, label+"m")
 	digits := rapid.IntRange(1, 5).Draw(t, label+"d")
 	s := strconv.Itoa(mant)
@@ -322,6 +333,8 @@ func GenModel(t *rapid.T, opts ModelOpts) (*t1ref.Font, map[string]bool) {
 			{"0.00048828125", "0", "0", "0.00048828125", "0", "0"},
 			{"1", "0", "0", "1", "0", "0"},
 			{"0.001", "0", "0", "-0.001", "10", "-20.5"},
+			{"0.000976562500001", "0", "0.000212556561670022", "0.00100000000001", "0", "0"},
+			{"0.001", "0", "0", "0.001", "16777217", "-0.1234567890123"},
 		}).Draw(t, "fmtext")
 		for i, s := range texts {
 			v, _ := strconv.ParseFloat(s, 64)
